@@ -145,7 +145,7 @@ def execute(scn, zy: Zygotes, keep=False):
                 for op in proc['ops']:
                     obs.append({'i': op['i'], 'res': parentops.run(op, scn, root), 'inv': [], 'fs': [], 'fired': []})
                 continue
-            job = {'world': scn['world'], 'root': root, 'proc': pi, 'ops': proc['ops'], 'store_dir': proc.get('store_dir', 'store')}
+            job = {'world': scn['world'], 'root': root, 'proc': pi, 'ops': proc['ops']}
             status, lines = zy.run(proc.get('hs', 0), job)
             crashed = None
             for ln in lines:
@@ -168,7 +168,7 @@ def execute(scn, zy: Zygotes, keep=False):
                 tear = (cop.get('crash') or {}).get('tear')
                 torn = None
                 if tear is not None and crashed.get('last_wopen'):
-                    fp = os.path.join(root, proc.get('store_dir', 'store'), crashed['last_wopen'])
+                    fp = os.path.join(root, 'stores', crashed['last_wopen'])
                     if os.path.isfile(fp) and not os.path.islink(fp):
                         size = os.path.getsize(fp)
                         keepn = _tear_len(tear, size)
